@@ -74,9 +74,9 @@ func (e *Engine) RunHarness(fn *ssa.Function) (res *HarnessResult) {
 		if r := recover(); r != nil {
 			switch sig := r.(type) {
 			case abortSig:
-				e.Inconclusive = append(e.Inconclusive, sig.kind+": "+sig.msg)
+				e.inconclusive(sig.kind + ": " + sig.msg)
 			default:
-				e.Inconclusive = append(e.Inconclusive, fmt.Sprintf("INTERNAL: engine crash: %v\n%s", r, debug.Stack()))
+				e.inconclusive(fmt.Sprintf("INTERNAL: engine crash: %v\n%s", r, debug.Stack()))
 			}
 		}
 		for _, v := range e.Violations {
@@ -96,7 +96,7 @@ func (e *Engine) RunHarness(fn *ssa.Function) (res *HarnessResult) {
 			res.Functions = append(res.Functions, f)
 		}
 		sort.Strings(res.Functions)
-		res.Assumes = e.Assumes
+		res.Assumes = int(*e.assumes)
 		res.Inputs = append([]string(nil), e.symOrder...)
 		res.Terms = term.NumTerms()
 		res.Races = e.Races
